@@ -317,7 +317,8 @@ Inductive opt :=
 | OCompression (gzip : bool)     (* WithCompression(Gzip|No) (HTTP) *)
 | OCompressor (name : bytes)     (* WithCompressor(name) (gRPC) *)
 | OTimeout (ns : Z)              (* WithTimeout *)
-| OInsecure.                     (* WithInsecure: transport only, no effect on the five settings *)
+| OInsecure                      (* WithInsecure: plain-text transport *)
+| OGRPCConn (target : bytes).    (* WithGRPCConn(conn) (gRPC): a connection the user dialled to [target] *)
 
 (** The environment: raw values of the generic OTEL_EXPORTER_OTLP_x and the signal-specific
     OTEL_EXPORTER_OTLP_<SIGNAL>_x variables; [[]] = unset (os.Getenv does not distinguish). *)
@@ -325,10 +326,14 @@ Record env := {
   gen_ep : bytes; spec_ep : bytes;
   gen_hdr : bytes; spec_hdr : bytes;
   gen_comp : bytes; spec_comp : bytes;
-  gen_tmo : bytes; spec_tmo : bytes }.
+  gen_tmo : bytes; spec_tmo : bytes;
+  gen_insec : bytes; spec_insec : bytes }.   (* OTEL_EXPORTER_OTLP_INSECURE, .._<SIGNAL>_INSECURE *)
 
 Definition gzip_name : bytes := str "gzip".
 Definition none_name : bytes := str "none".
+Definition https_name : bytes := str "https".
+Definition true_name : bytes := str "true".
+Definition false_name : bytes := str "false".
 
 (** ** inputs of the SDK settings *)
 (** Batch span processor: OTEL_BSP_* values and the options (durations of options in ns). *)
